@@ -27,6 +27,8 @@ func checkC18(c *Ctx) {
 	c.Rule("C18/R5", "duplicate policy table (DESIGN Appendix A6): REPLACE installs the new trial iff none exists or the existing date is strictly older, taking numerator, denominator and date from the new trial; COMBINE concatenates both samples and keeps the later date")
 	c.Rule("C18/R6", "combined samples are fresh slices: the helper that concatenates two samples never appends into the backing array of one of its arguments")
 
+	c.Rule("C18/R8", "collected keys are sorted by a total order on the keys themselves: every slice of map keys gathered in a map range is sorted by a standard value sort, or by a comparator whose every comparison is between the elements' own components or their String/StringValues renderings (nothing lossy such as a normalised date, nothing stateful such as a projection's observation order) and which, for struct keys, compares every field")
+	c.Rule("C18/R9", "a summary is a function of its point's samples: every table in benchseries that remembers computed results is keyed by every input of the remembered computation, verbatim (a product of hashes is not the pair of samples)")
 	c.Rule("C18/R7", "no 0/0 in the bootstrap: every division by a resampled median in benchseries is reached only after that median was tested non-zero (dividing first and repairing infinities leaves NaN for 0/0, which then sorts anywhere and breaks low <= centre <= high)")
 	p := mustLoad(c, loadOpts{}, "./benchseries", "./cmd/benchseries", "./benchproc", "./benchfmt", "./benchmath", "./benchunit", "./benchproc/internal/parse")
 	fns := p.Funcs("benchseries", "cmd/benchseries", "benchproc", "benchfmt", "benchmath", "benchunit", "benchproc/internal/parse")
@@ -53,6 +55,11 @@ func checkC18(c *Ctx) {
 		}
 	}
 	c.Floor("C18/R1", "map ranges in scope", n, 8)
+	c18TotalOrder(c, p, fns, inScope)
+	// R9: summaries are functions of the point's own samples: any table that remembers results in benchseries is keyed by
+	// every input of what it remembers (the rule of C13/R4; its matcher is exercised there on the median cache)
+	nm := checkMemoSites(c, p, "C18/R9", findMemoSites(p.Funcs("benchseries")), nil)
+	c.OK("C18/R9", "memo:sites", "", fmt.Sprintf("%d stores into remembering tables in benchseries", nm))
 	c18Sorted(c, p, fns, inScope)
 	c18Random(c, p, fns, inScope)
 	c18Dates(c, p)
@@ -745,4 +752,234 @@ func c18ZeroDen(c *Ctx, p *Prog) {
 		})
 	}
 	c.Floor(R, "divisions by resampled statistics in benchseries", n, 1)
+}
+
+// c18TotalOrder (C18/R8). Collect-then-sort makes a map range order-independent only if the sort leaves no ties between
+// distinct keys and its order is a function of the keys' values.
+func c18TotalOrder(c *Ctx, p *Prog, fns []*ssa.Function, inScope func(*ssa.Function) bool) {
+	const R = "C18/R8"
+	n := 0
+	for _, fn := range fns {
+		if !inScope(fn) {
+			continue
+		}
+		for _, lp := range naturalLoops(fn) {
+			var rg *ssa.Range
+			for _, in := range lp.Header.Instrs {
+				if nx, ok := in.(*ssa.Next); ok && !nx.IsString {
+					if r, ok := nx.Iter.(*ssa.Range); ok {
+						if _, isMap := r.X.Type().Underlying().(*types.Map); isMap {
+							rg = r
+						}
+					}
+				}
+			}
+			if rg == nil {
+				continue
+			}
+			keyT := rg.X.Type().Underlying().(*types.Map).Key()
+			// slices collected in the loop: header phis of slice type, or local slots (captured by the comparator) stored in it
+			var collected []ssa.Value
+			for _, in := range lp.Header.Instrs {
+				if phi, ok := in.(*ssa.Phi); ok {
+					if sl, ok := phi.Type().Underlying().(*types.Slice); ok && types.Identical(sl.Elem(), keyT) {
+						collected = append(collected, phi)
+					}
+				}
+			}
+			for b := range lp.Blocks {
+				for _, in := range b.Instrs {
+					if st, ok := in.(*ssa.Store); ok {
+						if al, ok := st.Addr.(*ssa.Alloc); ok {
+							if sl, ok := al.Type().(*types.Pointer).Elem().Underlying().(*types.Slice); ok && types.Identical(sl.Elem(), keyT) {
+								dup := false
+								for _, cv := range collected {
+									dup = dup || cv == ssa.Value(al)
+								}
+								if !dup {
+									collected = append(collected, al)
+								}
+							}
+						}
+					}
+				}
+			}
+			for _, cv := range collected {
+				cv := cv
+				isCollected := func(v ssa.Value) bool {
+					v = stripIface(v)
+					if v == cv {
+						return true
+					}
+					if ld, ok := v.(*ssa.UnOp); ok && ld.Op == token.MUL && ld.X == cv {
+						return true
+					}
+					if ph, ok := v.(*ssa.Phi); ok {
+						for _, e := range ph.Edges {
+							if e == cv {
+								return true
+							}
+						}
+					}
+					return false
+				}
+				eachInstr(fn, func(b *ssa.BasicBlock, in2 ssa.Instruction) {
+					call, ok := in2.(ssa.CallInstruction)
+					if !ok || lp.Blocks[b] || len(call.Common().Args) == 0 || !isCollected(call.Common().Args[0]) {
+						return
+					}
+					if bi, ok := call.Common().Value.(*ssa.Builtin); ok && (bi.Name() == "len" || bi.Name() == "append" || bi.Name() == "cap") {
+						return
+					}
+					n++
+					key := fmt.Sprintf("%s:sort-of-collected-keys#%d", fnName(fn), n)
+					ok2, why := c18SortIsTotal(p, call.Common(), keyT, 0)
+					c.Check(ok2, R, key, p.pos(in2.Pos()), "value sort / comparator over the keys' own components", why)
+				})
+			}
+		}
+	}
+	c.Floor(R, "sorts of collected map keys", n, 3)
+}
+
+func c18SortIsTotal(p *Prog, cc *ssa.CallCommon, keyT types.Type, depth int) (bool, string) {
+	co := calleeObj(cc)
+	if co == nil || co.Pkg() == nil {
+		return false, "the collected keys are ordered through a dynamic call"
+	}
+	switch co.Pkg().Path() + "." + co.Name() {
+	case "sort.Strings", "sort.Float64s", "sort.Ints", "slices.Sort":
+		return true, ""
+	case "sort.Slice", "sort.SliceStable", "slices.SortFunc", "slices.SortStableFunc":
+		if len(cc.Args) < 2 {
+			return false, "sort without a comparator"
+		}
+		mc, ok := cc.Args[1].(*ssa.MakeClosure)
+		var cmp *ssa.Function
+		if ok {
+			cmp = mc.Fn.(*ssa.Function)
+		} else if f, ok := cc.Args[1].(*ssa.Function); ok {
+			cmp = f
+		}
+		if cmp == nil {
+			return false, "the comparator is not a function literal or named function"
+		}
+		return c18ComparatorTotal(cmp, keyT)
+	}
+	// a function of the module that sorts its first parameter: look at the sorts inside it
+	sc := p.Body(cc.StaticCallee())
+	if sc == nil || sc.Blocks == nil || depth > 2 {
+		return false, "the collected keys are ordered by " + co.FullName() + ", whose comparator cannot be inspected"
+	}
+	found, okAll, why := false, true, ""
+	eachInstr(sc, func(_ *ssa.BasicBlock, in ssa.Instruction) {
+		call, ok := in.(ssa.CallInstruction)
+		if !ok || len(call.Common().Args) == 0 {
+			return
+		}
+		if !isParamOrSpill(stripIface(call.Common().Args[0]), sc.Params[0]) {
+			return
+		}
+		if bi, ok := call.Common().Value.(*ssa.Builtin); ok && (bi.Name() == "len" || bi.Name() == "cap") {
+			return
+		}
+		found = true
+		if ok2, w := c18SortIsTotal(p, call.Common(), keyT, depth+1); !ok2 {
+			okAll, why = false, "through "+co.FullName()+": "+w
+		}
+	})
+	if !found {
+		return false, co.FullName() + " does not sort the slice it is given with an inspectable comparator"
+	}
+	return okAll, why
+}
+
+// c18ComparatorTotal: every comparison in cmp is between components of the two elements (or their String/StringValues
+// renderings); for a struct key type every field is compared.
+func c18ComparatorTotal(cmp *ssa.Function, keyT types.Type) (bool, string) {
+	var fieldsSeen = map[string]bool{}
+	var elemDerived func(v ssa.Value, d int, top *string) bool
+	elemDerived = func(v ssa.Value, d int, top *string) bool {
+		if d > 10 {
+			return false
+		}
+		switch x := v.(type) {
+		case *ssa.UnOp:
+			if x.Op == token.MUL {
+				return elemDerived(x.X, d+1, top)
+			}
+		case *ssa.FieldAddr:
+			if f, _ := fieldOfAddr(x); f != nil {
+				*top = f.Name()
+			}
+			return elemDerived(x.X, d+1, top)
+		case *ssa.Field:
+			if f, _ := fieldOfVal(x); f != nil {
+				*top = f.Name()
+			}
+			return elemDerived(x.X, d+1, top)
+		case *ssa.IndexAddr:
+			_, isParam := x.Index.(*ssa.Parameter)
+			return isParam
+		case *ssa.Index:
+			_, isParam := x.Index.(*ssa.Parameter)
+			return isParam
+		case *ssa.Parameter:
+			// slices.SortFunc style comparators receive the elements themselves
+			return !isInteger(x.Type())
+		case *ssa.Call:
+			f := calleeObj(&x.Call)
+			if f == nil || (f.Name() != "StringValues" && f.Name() != "String") {
+				return false
+			}
+			if x.Call.IsInvoke() {
+				return elemDerived(x.Call.Value, d+1, top)
+			}
+			if len(x.Call.Args) == 1 {
+				return elemDerived(x.Call.Args[0], d+1, top)
+			}
+		case *ssa.MakeInterface:
+			return elemDerived(x.X, d+1, top)
+		}
+		return false
+	}
+	bad := ""
+	nCmp := 0
+	eachInstr(cmp, func(_ *ssa.BasicBlock, in ssa.Instruction) {
+		bo, ok := in.(*ssa.BinOp)
+		if !ok {
+			return
+		}
+		switch bo.Op {
+		case token.LSS, token.GTR, token.LEQ, token.GEQ, token.EQL, token.NEQ:
+		default:
+			return
+		}
+		if _, isBool := bo.X.Type().Underlying().(*types.Basic); isBool && bo.X.Type().Underlying().(*types.Basic).Info()&types.IsBoolean != 0 {
+			return
+		}
+		nCmp++
+		var tx, ty string
+		if !elemDerived(bo.X, 0, &tx) || !elemDerived(bo.Y, 0, &ty) {
+			bad = "a comparison in the comparator is not between components of the two keys or their String/StringValues renderings (operands " + bo.X.Name() + " = " + truncate(bo.X.String(), 80) + " and " + bo.Y.Name() + " = " + truncate(bo.Y.String(), 80) + "): two distinct keys can compare equal both ways (e.g. two spellings of one instant after date normalisation) or the order depends on state outside the keys (a projection's first-observation order), so which of them comes first, and with it which duplicate wins or which hash pair is recorded, depends on map iteration or insertion order"
+			return
+		}
+		if tx == ty {
+			fieldsSeen[tx] = true
+		}
+	})
+	if bad != "" {
+		return false, bad
+	}
+	if nCmp == 0 {
+		return false, "the comparator compares nothing"
+	}
+	if st, ok := keyT.Underlying().(*types.Struct); ok && st.NumFields() > 1 && !fieldsSeen[""] {
+		for i := 0; i < st.NumFields(); i++ {
+			if !fieldsSeen[st.Field(i).Name()] {
+				return false, "the comparator never compares the key's field " + st.Field(i).Name() + ": keys that differ only there tie, and their relative order is left to map iteration order"
+			}
+		}
+	}
+	return true, ""
 }
